@@ -61,7 +61,9 @@ TRUSTED = [
     'cancels a variable while building the object the model receives the tree sympy holds, value-checked against the '
     'source expression); recursive_substitution (evaluate_symbolic) preserves values',
     'frozendict behaves as an immutable dict',
-    'harness: generators, scope builder, sym_to_json, exact number conversion (as_integer_ratio), Gallina printers; '
+    'harness: generators, scope builder and its sharing rule (s_labels: identical sub-scopes inside one joint scope are '
+    'one object; checked for consistency by lab_okb), sym_to_json / sym_to_json_typed (sympy\'s canonical tree of an '
+    'expression text, value-checked at three points), exact number conversion (as_integer_ratio), Gallina printers; '
     'exactness filter for divisions (divisor values +-2^k, evaluated on the tree sympy holds, environments as the '
     'implementation evaluates them) and, only for cases with a division by an expression, replacement of a case whose '
     'observation contains a rounded float by the empty history (counted as dropped:inexact-float-division)',
